@@ -131,6 +131,8 @@ var redirectTable = map[string][2]string{
 	"(*github.com/jackc/pgx/v5/pgxpool.Pool).Exec":        {repoMod + "/shovel", "zzPoolExec"},
 	"(*" + repoMod + "/jrpc2.URL).String":                 {repoMod + "/jrpc2", "zzURLString"},
 	"(*" + repoMod + "/jrpc2.URL).Hostname":               {repoMod + "/jrpc2", "zzURLHostname"},
+	"(*" + repoMod + "/jrpc2.Client).httpPoll":            {repoMod + "/jrpc2", "zzNoPoll"},
+	"(*" + repoMod + "/jrpc2.Client).wsListen":            {repoMod + "/jrpc2", "zzNoListen"},
 	repoMod + "/jrpc2.MustURL":                            {repoMod + "/jrpc2", "zzMustURL"},
 	repoMod + "/shovel/config.Integrations":               {repoMod + "/shovel/config", "zzDBIntegrations"},
 	repoMod + "/shovel/config.Sources":                    {repoMod + "/shovel/config", "zzDBSources"},
